@@ -9,6 +9,7 @@
 //! Start states: the initial state and every post-partition state
 //! (`default* Isolate(i) default* [Append default*] Heal`).
 //! GOAL = exactly one leader, followed by every other node, and every value appended since the start state
+//! as well as every entry the leader holds as committed
 //! is committed, as the leader's entry, on every node.
 //! Property: every infinite path visits GOAL again and again: the subgraph of
 //! non-GOAL states has no cycle, no state beyond the term cap, and GOAL is
@@ -88,9 +89,16 @@ fn goal(w: &World, base_appends: u8) -> Result<(), &'static str> {
         return Err("leader-not-followed-by-all");
     }
     for d in base_appends + 1..=w.appends {
-        let Some(le) = w.nodes[l].storage.entries.iter().find(|e| e.data == d) else { return Err("entry-lost-at-leader") };
+        if !w.nodes[l].storage.entries.iter().any(|e| e.data == d) {
+            return Err("entry-lost-at-leader");
+        }
+    }
+    // every entry appended since the start state, and every entry the leader holds as committed (it was
+    // appended at a leader and acknowledged, possibly on the majority side of the partition), is committed
+    // as the same entry on every node
+    for le in w.nodes[l].storage.entries.iter().filter(|e| e.committed || e.data > base_appends) {
         for i in 0..N {
-            let ok = w.nodes[i].storage.entries.iter().any(|e| e.data == d && e.index == le.index && e.term == le.term && e.committed);
+            let ok = w.nodes[i].storage.entries.iter().any(|e| e.data == le.data && e.index == le.index && e.term == le.term && e.committed);
             if !ok {
                 return Err("entry-not-committed-everywhere");
             }
@@ -225,6 +233,13 @@ fn start_states(c: &Cfg) -> Vec<Start> {
         }
         layers.push(next);
     }
+    // the scripted base states of E1/E2 that are fault-free from now on (deeper partition histories than the
+    // systematic family below: e.g. the new leader two committed entries ahead of the rejoining stale leader)
+    for b in crate::explore::bases(true) {
+        if b.world.isolated.is_none() && b.world.held.is_empty() && !b.events.is_empty() {
+            starts.push(mk(b.events.clone(), b.world.clone(), b.events.iter().any(|e| matches!(e, Event::Isolate(_))), false, false, 0));
+        }
+    }
     let mut seen_s: HashMap<u128, ()> = HashMap::new();
     for calm_pass in [true, false] {
         for layer in &layers {
@@ -293,11 +308,15 @@ fn enabled_fifo(w: &World, base_appends: u8, defers: u8, c: &Cfg, class: u8) -> 
     if w.net.len() >= 2 && defers < budgets(c, class).0 {
         evs.push((Event::Defer(0), defers + 1));
     }
-    let leaders = w.leaders();
-    if leaders.len() == 1 && w.appends - base_appends < budgets(c, class).1 {
-        let l = leaders[0];
-        if (0..N).all(|i| i == l || w.nodes[i].v_state() == (crate::raft::V_FOLLOWER, l as u64)) {
-            evs.push((Event::Append(l as u8), defers));
+    // the client writes at a leader that every other node either follows or - a deposed leader of a LOWER
+    // term that has not noticed yet - cannot compete with
+    if w.appends - base_appends < budgets(c, class).1 {
+        for l in w.leaders() {
+            let t = w.nodes[l].v_term();
+            let ok = (0..N).all(|i| i == l || w.nodes[i].v_state() == (crate::raft::V_FOLLOWER, l as u64) || (w.is_leader(i) && w.nodes[i].v_term() < t));
+            if ok {
+                evs.push((Event::Append(l as u8), defers));
+            }
         }
     }
     evs
@@ -694,6 +713,12 @@ pub fn run(args: &Args) -> i32 {
                "fifo_regime": {"starts": "initial state and every post-partition state", "max_reorderings": c.max_defers, "max_client_appends": c.max_appends_fifo, "client_appends_during_partition": c.partition_appends, "partition_points_only_when_network_empty": c.quiescent_partition_points},
                "term_cap_above_start": c.term_slack, "state_cap": c.state_cap}),
     );
+    {
+        let mut sk = crate::explore::SKIPPED_BASES.lock().unwrap().clone();
+        sk.sort();
+        sk.dedup();
+        report.set("base_states_skipped_because_their_script_cannot_be_completed_on_this_code", json!(sk));
+    }
     report.set("wall_start_states_s", json!(t_starts));
     report.set("wall_graph_s", json!(t_build));
     report.sample(json!({"start": "initial", "regime": "all orders", "events": "every order of: Deliver(any in-flight message) | Proc(i) when due | Tick when the network is empty and nothing is due | Append(leader) once every node follows the leader"}));
